@@ -560,6 +560,42 @@ def closed_is(repo: Repo, ci, fn, *alternatives, kc=None, allow_raise=False, lev
     return ok, sorted(outs, key=str)
 
 
+class _ConstFold(ast.NodeTransformer):
+    def __init__(self, consts):
+        self.consts = consts
+
+    def visit_Name(self, n):
+        if isinstance(n.ctx, ast.Load) and n.id in self.consts:
+            return ast.copy_location(ast.Constant(self.consts[n.id]), n)
+        return n
+
+
+def module_literals(repo: Repo, rel, fn=None):
+    """module-level names bound exactly once, at the top level of the module, to a number / string / bool / None literal and not re-bound in `fn`:
+    reading such a name is reading the literal (a named constant such as _ACCEPTANCE_RATE = 1)"""
+    if rel is None or rel not in repo.modules:
+        return {}
+    tree = repo.modules[rel].tree
+    cnt, val = {}, {}
+    for n in ast.walk(tree):
+        if isinstance(n, ast.Name) and isinstance(n.ctx, (ast.Store, ast.Del)):
+            cnt[n.id] = cnt.get(n.id, 0) + 1
+        elif isinstance(n, (ast.FunctionDef, ast.ClassDef)):
+            cnt[n.name] = cnt.get(n.name, 0) + 1
+        elif isinstance(n, ast.arg):
+            cnt[n.arg] = cnt.get(n.arg, 0) + 1
+        elif isinstance(n, (ast.Global, ast.Nonlocal)):
+            for x in n.names:
+                cnt[x] = cnt.get(x, 0) + 2
+        elif isinstance(n, ast.alias):
+            cnt[(n.asname or n.name).split(".")[0]] = cnt.get((n.asname or n.name).split(".")[0], 0) + 1
+    for st in tree.body:
+        if isinstance(st, ast.Assign) and len(st.targets) == 1 and isinstance(st.targets[0], ast.Name) and isinstance(st.value, ast.Constant) \
+                and cnt.get(st.targets[0].id) == 1 and (st.value.value is None or isinstance(st.value.value, (int, float, str, bool))):
+            val[st.targets[0].id] = st.value.value
+    return val
+
+
 def method_effects(repo: Repo, ci, fn, valuation=None, level=1, kc=None, view=None):
     """what a (small) method does on each of its paths, independent of how it is spelled: list of
     {kind: return|fall|raise|unknown|loop, ret: text|None, stores: {"self.x": text}, calls: [text, ...]} with locals replaced by their bindings;
@@ -568,8 +604,12 @@ def method_effects(repo: Repo, ci, fn, valuation=None, level=1, kc=None, view=No
     from ..pattern import norm as pn
     v = view if view is not None else canon_fn(repo, ci, fn, level)
 
+    consts = module_literals(repo, ci.module.rel if ci is not None else getattr(v, "_rel", None), fn)
+
     def tx(e):
         e = clone_(e)
+        if consts:
+            e = _ConstFold(consts).visit(e)
         if kc is not None:
             e = kc.visit(e)
         return pn(e)
